@@ -795,3 +795,75 @@ pub fn retarget_window_case(seed: u64, idx: u64) -> CaseOut {
     }
     co
 }
+
+/// C19 (`x` cases): the finite geometry space swept completely - every terminal width 1..=300, every line of
+/// k*width-1, k*width and k*width+1 columns for k = 1..=8 (the boundary where a line takes one row more).
+/// A MultiProgress shows a log line, the long bar A and a short bar B; A, B and A are redrawn, then a
+/// second log line is printed. The screen must hold exactly the physical rows of "log", "log2", A's text cut
+/// into rows of `width` columns, and "B" - no log line erased, no blank row, nothing left over.
+pub fn geometry_sweep_case(idx: u64) -> CaseOut {
+    let w = (idx / 24 + 1) as usize;
+    let k = ((idx % 24) / 3 + 1) as usize;
+    let d = (idx % 3) as i64 - 1;
+    let cols = ((k * w) as i64 + d).max(1) as usize;
+    let replay = format!("x0:{idx}");
+    let witness = J::obj().with("terminal_width", w).with("line_columns", cols).with("rows_expected", (cols + w - 1) / w);
+    let feats = vec!["geometry-sweep".to_string(), if d == 0 { "exact-multiple-of-width".to_string() } else { "next-to-a-multiple".to_string() }];
+    let mut co = CaseOut::held(idx, true);
+    let text: String = (0..cols).map(|i| (b'a' + (i % 26) as u8) as char).collect();
+    let rows_a = (cols + w - 1) / w;
+    let log_rows = |s: &str| (s.len() + w - 1) / w;
+    let height = (rows_a + log_rows("log") + log_rows("log2") + 1 + 4) as u16;
+    let spy = SpyTerm::new(w as u16, height, false);
+    spy.state().snap_on_flush = false;
+    let res = catch_unwind(AssertUnwindSafe(|| {
+        let mp = MultiProgress::with_draw_target(ProgressDrawTarget::term_like(spy.boxed()));
+        let a = mp.add(ProgressBar::with_draw_target(Some(10), ProgressDrawTarget::hidden()).with_style(ProgressStyle::with_template("{msg}").unwrap()));
+        let b = mp.add(ProgressBar::with_draw_target(Some(10), ProgressDrawTarget::hidden()).with_style(ProgressStyle::with_template("B").unwrap()));
+        let _ = mp.println("log");
+        a.set_message(text.clone());
+        b.tick();
+        a.tick();
+        b.tick();
+        a.tick();
+        let _ = mp.println("log2");
+        a.tick();
+        let rows = rows_of(&spy);
+        a.abandon();
+        b.abandon();
+        std::mem::forget(a);
+        std::mem::forget(b);
+        std::mem::forget(mp);
+        rows
+    }));
+    let chunk = |s: &str| -> Vec<String> { s.as_bytes().chunks(w).map(|c| String::from_utf8_lossy(c).to_string()).collect() };
+    match res {
+        Err(p) => co.verdict = viol("panic", feats, format!("panicked: {}", crate::world::panic_message(&p)), witness, replay),
+        Ok(rows) => {
+            let mut want: Vec<String> = Vec::new();
+            want.extend(chunk("log"));
+            want.extend(chunk("log2"));
+            want.extend(chunk(&text));
+            want.extend(chunk("B"));
+            if rows != want {
+                let first = rows.iter().zip(want.iter()).position(|(a, b)| a != b).unwrap_or(rows.len().min(want.len()));
+                let rule = if rows.len() < want.len() && !rows.iter().any(|r| r.starts_with("lo")) { "log-missing" } else { "row-accounting" };
+                co.verdict = viol(
+                    rule,
+                    feats,
+                    format!(
+                        "width {w}, a bar line of {cols} columns ({rows_a} rows): the screen has {} rows, expected {}; first difference at row {first}: {:?} vs {:?}",
+                        rows.len(),
+                        want.len(),
+                        rows.get(first).map(|r| r.chars().take(30).collect::<String>()),
+                        want.get(first).map(|r| r.chars().take(30).collect::<String>())
+                    ),
+                    witness,
+                    replay,
+                );
+            }
+            co.count("geometry_points_swept", 1);
+        }
+    }
+    co
+}
